@@ -26,6 +26,10 @@ Tw_RKeys == (1 :> {1})
 \* "exhaust": one call for keys 1 and 2 on a long-lived session; the neighbour holds 1 only (DONT_HAVE for 2)
 Ex_Has0 == (2 :> {1})
 
+\* "cross": two calls for key 1 on two temporary sessions of the same node, the neighbour holds the (large) block
+Cr_RSess == (1 :> 1) @@ (2 :> 2)
+Cr_Has0 == (2 :> {1})
+
 \* "late": a call on a long-lived session, the key is announced locally around the time of the call
 La_Adds == {<<0, 1>>}
 =============================================================================
